@@ -60,7 +60,9 @@ class DBNInference(Inference):
         self._initialize_structures()
 
         self.interface_nodes_0 = model.get_interface_nodes(time_slice=0)
-        self.interface_nodes_1 = model.get_interface_nodes(time_slice=1)
+        # The forward interface of slice 1: the same variables as in slice 0 (the
+        # parents of the next slice), not the children of the inter-slice edges.
+        self.interface_nodes_1 = self._shift_nodes(self.interface_nodes_0, 1)
 
         start_markov_model = self.start_bayesian_model.to_markov_model()
         one_and_half_markov_model = self.one_and_half_model.to_markov_model()
